@@ -138,19 +138,30 @@ def expected(case):
     return use, visible, kind
 
 
+def private_qqrec(home):
+    """the stand-in queue program, copied so that a rebuild of bin/ by somebody else cannot disturb a run"""
+    import shutil
+    dst = home + "/bin/qq-rec"
+    shutil.copy(QQREC, dst)
+    os.chmod(dst, 0o755)
+    return dst
+
+
 def run_inject(b, home, rec, argv, msg, envx):
-    for f in glob.glob(rec + "/*"):
-        os.unlink(f)
-    env = b.env(home, {"QMAILQUEUE": QQREC, "NQV_REC": rec, "USER": "tester"})
+    env = b.env(home, {"QMAILQUEUE": home + "/bin/qq-rec", "NQV_REC": rec, "USER": "tester"})
     env.update(envx)
     mp = home + "/in.msg"
     with open(mp, "wb") as f:
         f.write(msg)
-    with open(mp, "rb") as fin:
-        rc, out, err = core.run_with_watchdog([home + "/bin/qmail-inject"] + argv, 60, env=env, stdin=fin)
-        if rc is None:
-            fin.seek(0)
+    for attempt in (0, 1):
+        for f in glob.glob(rec + "/*"):
+            os.unlink(f)
+        with open(mp, "rb") as fin:
             rc, out, err = core.run_with_watchdog([home + "/bin/qmail-inject"] + argv, 60, env=env, stdin=fin)
+        # a watchdog expiry or a *temporary* error (exit 111: cannot run the queue program, out of
+        # memory...) is a harness problem: once more, then inconclusive
+        if rc is not None and rc != 111:
+            break
     envs = glob.glob(rec + "/*.env")
     envelope = message = None
     if len(envs) == 1:
@@ -250,6 +261,7 @@ def inject_worker(bdir, lo, hi):
     sandbox.make_home(b, home, controls={"me": "me.test"}, bins=("qmail-inject",), queue=False)
     rec = home + "/rec"
     os.makedirs(rec)
+    private_qqrec(home)
     for i in range(lo, hi):
         case = gen_case(i)
         cfg = case["cfg"]
@@ -279,8 +291,8 @@ def inject_worker(bdir, lo, hi):
                "expected_recipients": [core.hx(g.qualify(m.local, m.domain, cfg)) for m in use[:40]]}
         rc, err, envelope, message = run_inject(b, home, rec, argv, case["msg"], envx1)
         e = err.decode("latin1")
-        if rc is None:
-            res.inconclusive.append("qmail-inject watchdog (case %d)" % i)
+        if rc is None or rc == 111:
+            res.inconclusive.append("qmail-inject %s (case %d): %s" % ("watchdog" if rc is None else "temporary error", i, e[-120:]))
             continue
         if "Sanitizer" in e or "runtime error" in e or (rc is not None and rc < 0):
             res.violate("C20/sanitizer/qmail-inject/" + hrun.sanitizer_site(e), "sanitizer report in qmail-inject (rc=%s)" % rc,
@@ -322,8 +334,8 @@ def inject_worker(bdir, lo, hi):
         rc2, err2, envelope2, message2 = run_inject(b, home, rec, ["-h"], message, envx)
         res.counters.inc("reparse_runs")
         e2 = err2.decode("latin1")
-        if rc2 is None:
-            res.inconclusive.append("qmail-inject watchdog on re-parse (case %d)" % i)
+        if rc2 is None or rc2 == 111:
+            res.inconclusive.append("qmail-inject %s on re-parse (case %d): %s" % ("watchdog" if rc2 is None else "temporary error", i, e2[-120:]))
             continue
         if "Sanitizer" in e2 or "runtime error" in e2 or rc2 < 0:
             res.violate("C20/sanitizer/qmail-inject/" + hrun.sanitizer_site(e2), "sanitizer report in qmail-inject on its own output",
@@ -361,6 +373,7 @@ def smtpd_worker(bdir, hbin, lo, hi, per):
     sandbox.make_home(b, home, controls={"me": "server.test"}, bins=("qmail-smtpd",), queue=False)
     rec = home + "/rec"
     os.makedirs(rec)
+    private_qqrec(home)
     for i in range(lo, hi):
         rng = core.case_rng(PROP, i, "smtpd")
         addrs = []
@@ -389,7 +402,7 @@ def smtpd_worker(bdir, hbin, lo, hi, per):
         sp = home + "/session"
         with open(sp, "wb") as f:
             f.write(session)
-        env = b.env(home, {"QMAILQUEUE": QQREC, "NQV_REC": rec, "TCPREMOTEIP": "192.0.2.7", "TCPLOCALIP": "192.0.2.1"})
+        env = b.env(home, {"QMAILQUEUE": home + "/bin/qq-rec", "NQV_REC": rec, "TCPREMOTEIP": "192.0.2.7", "TCPLOCALIP": "192.0.2.1"})
         with open(sp, "rb") as fin:
             rc, out, err = core.run_with_watchdog([home + "/bin/qmail-smtpd"], 60, env=env, stdin=fin)
         e = err.decode("latin1")
